@@ -369,6 +369,21 @@ def scenarios():
         "traj", lambda t: tb + ["--save_as_kitti"]), "est1.kitti",
         outputs=lambda t: ["est1.kitti", "est2.kitti", "ref.kitti"],
         needs_inputs=True)
+    # two inputs with the same file stem (run1/est.txt, run2/est.txt) are
+    # exported to the same name: the second export finds the file of the
+    # first - or the pre-existing one that the first was not allowed to
+    # replace (event monitor)
+    def prep_same_stem(wd):
+        for d in ("run1", "run2"):
+            os.makedirs(os.path.join(wd, d), exist_ok=True)
+            shutil.copy(os.path.join(wd, "est1.txt" if d == "run1"
+                                     else "est2.txt"),
+                        os.path.join(wd, d, "est.txt"))
+    add("evo_traj:save_as_tum-same-stem", _cli(
+        "traj", lambda t: ["tum", "run1/est.txt", "run2/est.txt",
+                           "--save_as_tum"]), "est.tum",
+        outputs=lambda t: ["est.tum"], needs_inputs=True,
+        prepare=prep_same_stem)
     add("evo_traj:save_table", _cli(
         "traj", lambda t: tb + ["--save_table", t]), "t.csv",
         needs_inputs=True)
@@ -448,11 +463,12 @@ ALWAYS_CONFIRMS = {"evo_config:generate", "evo_config:generate-tilde"}
 # scenarios in which evo may fail or write elsewhere (the path is unusual);
 # only "existing files stay untouched unless confirmed" is demanded
 LENIENT = {"evo_config:generate-tilde", "writer:plot-noext-pdf",
+           "evo_traj:save_as_tum-same-stem",
            "evo_ape:serialize_plot+save_results-same-path",
            "evo_rpe:serialize_plot+save_results-same-path"}
 # ... judged by the event monitor: every write onto a path that exists at
 # that moment needs a question answered 'y' since the last write to it
-MONITORED = {"writer:plot-noext-pdf",
+MONITORED = {"writer:plot-noext-pdf", "evo_traj:save_as_tum-same-stem",
              "evo_ape:serialize_plot+save_results-same-path",
              "evo_rpe:serialize_plot+save_results-same-path"}
 # evo_fig additionally asks whether to overwrite its *input* file
@@ -517,6 +533,12 @@ def run_history(name, pathtype, initial, history, wd=None):
     elif initial == "old-first-only":
         with open(os.path.join(wd, outputs[0]), "wb") as f:
             f.write(OLD)
+    elif initial == "old-long":
+        # an existing file that is (much) longer than anything evo writes:
+        # a replacement replaces all of it
+        for o in outputs:
+            with open(os.path.join(wd, o), "wb") as f:
+                f.write(OLD * 4000)
     elif initial == "empty":
         # zero-length existing files are existing files
         for o in outputs:
@@ -617,7 +639,11 @@ def run_history(name, pathtype, initial, history, wd=None):
                     # (covers the zero-length initial state as well)
                     msgs.append("%s: output %s still holds the old content" %
                                 (where, o))
-                elif o in before and before[o] not in (OLD, b"") and \
+                elif OLD in after[o]:
+                    msgs.append("%s: output %s was written over the old "
+                                "file but still holds part of its content "
+                                "(%d bytes)" % (where, o, len(after[o])))
+                elif o in before and before[o] != b"" and OLD not in before[o] and \
                         step > 0 and \
                         name.startswith(("writer:tum", "writer:kitti")) and \
                         after[o] != before[o]:
@@ -645,8 +671,8 @@ def cases_for(name, S, thorough):
     cases = []
     cheap = S["cost"] == "cheap"
     multi = len(S["outputs"](S["target"])) > 1
-    inits = ["absent", "old", "empty"] + (["old-first-only"] if multi
-                                           else [])
+    inits = ["absent", "old", "empty", "old-long"] + (
+        ["old-first-only"] if multi else [])
     for pt in S["pathtypes"]:
         if cheap:
             for init in inits:
